@@ -265,7 +265,7 @@ pub fn build(c: &Case) -> Built {
     Built { text, lt, gt, key }
 }
 
-fn check_case(c: &Case, sink: &Sink) {
+fn check_case(c: &Case, cfg: Option<&Cfg>, sink: &Sink) {
     if !applicable(c) {
         return;
     }
@@ -300,7 +300,7 @@ fn check_case(c: &Case, sink: &Sink) {
     };
     let [d] = diags.as_slice() else {
         sink.outcome(format!("{:?}:{:?}:diagnostics={}", c.host, c.rule, diags.len()));
-        sink.fail(format!("C10:expected-one-diagnostic:{:?}", c.rule), describe(&format!("{} {} diagnostics: {:?}", diags.len(), c.rule.code(), outcome.to_json())), input);
+        sink.fail(format!("C10:expected-one-diagnostic:{:?}", c.rule), describe(&format!("{} {} diagnostics: {:?}", diags.len(), c.rule.code(), outcome.to_json())), input.clone());
         return;
     };
     let (want_start, want_end, what) = if c.rule.key_range() {
@@ -324,10 +324,18 @@ fn check_case(c: &Case, sink: &Sink) {
         sink.fail(
             format!("C10:{kind}:{}:{:?}{layout}", if c.rule.key_range() { "key" } else { "tag" }, c.host),
             describe(&format!("the {what} is at {}:{}–{}:{} but the diagnostic says {}:{}–{}:{}", want_start.0, want_start.1, want_end.0, want_end.1, got.0, got.1, got.2, got.3)),
-            input,
+            input.clone(),
         );
     }
     sink.nontrivial();
+    // CLI conformance slice: the layouts with one comment line before and after the tag also go
+    // through the real binary (same diagnostics, status and `list` output).
+    if let Some(cfg) = cfg {
+        if c.before == 1 && c.after == 1 && c.indent == 0 && c.rule != Rule::Affects {
+            let files = vec![(file.to_string(), built.text.clone())];
+            crate::props::conform::cli_agrees(cfg, &files, &outcome, &[], "C10", &input, sink);
+        }
+    }
     if c.before == 1 && c.after == 1 {
         sink.sample(|| json!({"case": format!("{c:?}"), "file": built.text, "expected_range": [want_start.0, want_start.1, want_end.0, want_end.1]}));
     }
@@ -365,14 +373,15 @@ pub fn run(cfg: &Cfg, sink: &Arc<Sink>) -> Report {
     report.assume("check-ai ranges are covered by C19's exploration (same tag range code path as check-lua)");
     let cases = all_cases();
     let n = cases.len();
-    report.phase(engine::explore("layouts × rules", &format!("{n} cases (full product of the applicable combinations)"), Grid { cases, check: |c: &Case, s: &Sink| check_case(c, s) }, sink, cfg.threads, false));
+    let cfg2 = cfg.clone();
+    report.phase(engine::explore("layouts × rules", &format!("{n} cases (full product of the applicable combinations)"), Grid { cases, check: move |c: &Case, s: &Sink| check_case(c, Some(&cfg2), s) }, sink, cfg.threads, false));
     report
 }
 
-pub fn replay(_cfg: &Cfg, input: &Value, sink: &Arc<Sink>) {
+pub fn replay(cfg: &Cfg, input: &Value, sink: &Arc<Sink>) {
     let want = input["case"].as_str().unwrap_or("");
     match all_cases().into_iter().find(|c| format!("{c:?}") == want) {
-        Some(c) => check_case(&c, sink),
+        Some(c) => check_case(&c, Some(cfg), sink),
         None => sink.machinery("replay: unknown case"),
     }
 }
